@@ -781,8 +781,72 @@ func selfCalls(fn *ssa.Function) []*ssa.Call {
 	var out []*ssa.Call
 	for _, b := range fn.Blocks {
 		for _, in := range b.Instrs {
-			if cl, ok := in.(*ssa.Call); ok && cl.Common().StaticCallee() == fn {
+			cl, ok := in.(*ssa.Call)
+			if !ok {
+				continue
+			}
+			if cl.Common().StaticCallee() == fn {
 				out = append(out, cl)
+				continue
+			}
+			for _, t := range closureCallees(cl) {
+				if t == fn {
+					out = append(out, cl)
+				}
+			}
+		}
+	}
+	return out
+}
+
+// closureCallees resolves a call through a local function variable (`var f func(..); f = func(..){ .. f(..) .. }`):
+// the variable is a local of the calling function, or a captured local of an enclosing one; its possible values are
+// the function literals stored into it.
+func closureCallees(ci ssa.CallInstruction) []*ssa.Function {
+	if ci.Common().IsInvoke() || ci.Common().StaticCallee() != nil {
+		return nil
+	}
+	u, ok := ci.Common().Value.(*ssa.UnOp)
+	if !ok || u.Op != token.MUL {
+		return nil
+	}
+	var cell ssa.Value
+	switch x := u.X.(type) {
+	case *ssa.Alloc:
+		cell = x
+	case *ssa.FreeVar:
+		fn := x.Parent()
+		idx := -1
+		for i, fv := range fn.FreeVars {
+			if fv == x {
+				idx = i
+			}
+		}
+		par := fn.Parent()
+		if par == nil || idx < 0 {
+			return nil
+		}
+		for _, b := range par.Blocks {
+			for _, in := range b.Instrs {
+				if mc, ok := in.(*ssa.MakeClosure); ok && mc.Fn == ssa.Value(fn) && idx < len(mc.Bindings) {
+					cell = mc.Bindings[idx]
+				}
+			}
+		}
+	}
+	if cell == nil || cell.Referrers() == nil {
+		return nil
+	}
+	var out []*ssa.Function
+	for _, r := range *cell.Referrers() {
+		if st, ok := r.(*ssa.Store); ok && st.Addr == cell {
+			switch v := st.Val.(type) {
+			case *ssa.MakeClosure:
+				if f, ok := v.Fn.(*ssa.Function); ok {
+					out = append(out, f)
+				}
+			case *ssa.Function:
+				out = append(out, v)
 			}
 		}
 	}
@@ -804,6 +868,11 @@ func c14Recursion(c *Ctx, S map[*ssa.Function]bool) {
 				if ci, ok := in.(ssa.CallInstruction); ok {
 					if cal := ci.Common().StaticCallee(); cal != nil && inMod[cal] {
 						callees[f] = append(callees[f], cal)
+					}
+					for _, cal := range closureCallees(ci) {
+						if inMod[cal] {
+							callees[f] = append(callees[f], cal)
+						}
 					}
 				}
 			}
